@@ -35,7 +35,7 @@ for (pid, n), r in sorted(res.items()):
         if not os.path.exists(dst + '/patch.diff'):
             continue
     os.makedirs(dst, exist_ok=True)
-    if src != dst:
+    if src != dst and not os.path.exists(dst + '/patch.diff'):
         shutil.copy(src + '/mutant%d.diff' % n, dst + '/patch.diff')
         shutil.copy(src + '/demo%d.rs' % n, dst + '/demo.rs')
     meta = {}
@@ -43,7 +43,15 @@ for (pid, n), r in sorted(res.items()):
         meta = json.load(open(src + ('/meta%d.json' % n if src != dst else '/meta.json')))
     except Exception as e:
         meta = {'note': 'agent meta unreadable: %s' % e}
-    old_checks = meta.get('checks_run', {}) if src == dst else {}
+    if os.path.exists(dst + '/meta.json'):
+        try:
+            prev = json.load(open(dst + '/meta.json'))
+            for k in ('checks_run', 'confirmed', 'first_findings'):
+                if k in prev and k not in meta:
+                    meta[k] = prev[k]
+        except Exception:
+            pass
+    old_checks = meta.get('checks_run', {})
     old_checks.update(r['checks'])
     caught = sorted(k for k, v in old_checks.items() if v['exit'] == 1)
     meta.update({
